@@ -14,6 +14,7 @@ import KiraModel.Proofs.TransportLemmas
 import KiraModel.Proofs.StaticLemmas
 import KiraModel.Proofs.LifecycleLemmas
 import KiraModel.Proofs.GenAgreeSound
+import KiraModel.Proofs.GenAgreeTransport
 
 namespace K
 open Transport
